@@ -107,5 +107,3 @@ def reset_stubs(g):
         CTX.fp_mode = False
         if hasattr(g.util, "TWO_PI"):
             g.util.TWO_PI = TWO_PI
-    for attr in [a for a in vars(g) if a.startswith("_c") or a.startswith("_io")]:
-        pass
